@@ -1326,6 +1326,9 @@ class Engine:
 
     def inline_call(self, qual, args, kwargs, st):
         fn = self.src.func(qual)
+        if not hasattr(self, 'inlined_quals'):
+            self.inlined_quals = {}
+        self.inlined_quals[qual] = self.src.source_hash(qual)
         saved = (self.fn, self.ordinals)
         outs = self.run_body(fn, args, kwargs, st, fresh_env=True)
         self.fn, self.ordinals = saved
